@@ -332,6 +332,13 @@ def fmt_rewrite(job, skip_ranges, notes):
         if not args or toks[args[0][0]].kind != 'str' or args[0][1] - args[0][0] != 1 or toks[args[0][0]].text.startswith(('r', 'b')):
             raise Lost('%s: format! at line %d does not start with a plain string literal' % (job.rel, rustlex.line_of(job.src, t.pos)))
         lit_tok = toks[args[0][0]].text
+        # N4c: a `const NAME: &str = "…";` of the same file captured as `{NAME}` is written out in the literal (same text by
+        # the definition of format!: Display of a &str without a format spec is the string itself)
+        for cname in sorted(set(re.findall(r'(?<!\{)\{([A-Z][A-Z0-9_]*)\}', lit_tok))):
+            cm = re.search(r'\bconst\s+%s\s*:\s*&\s*(?:\'static\s+)?str\s*=\s*"((?:[^"\\]|\\.)*)"\s*;' % cname, job.src)
+            if cm:
+                lit_tok = lit_tok.replace('{%s}' % cname, cm.group(1).replace('{', '{{').replace('}', '}}'))
+                notes.setdefault('fmt_inlined_consts', []).append(dict(file=job.rel, const=cname, line=rustlex.line_of(job.src, t.pos)))
         parts = parse_format_literal(rust_unescape(lit_tok))
         def arg_text(a, b):
             # text of one argument with the edits that fall inside it (hoists, normalisations) already applied
@@ -363,7 +370,7 @@ def fmt_rewrite(job, skip_ranges, notes):
                 params.append([pname, pos_args[pi], set()]); index[pname] = len(params) - 1
                 pi += 1
             else:
-                pname = 'self_' if name == 'self' else name
+                pname = 'self_' if name == 'self' else (name if not name[0].isupper() else 'c_' + name.lower())
                 if pname not in index:
                     params.append([pname, name, set()]); index[pname] = len(params) - 1
             ent = params[index[pname]]
@@ -387,6 +394,9 @@ def fmt_rewrite(job, skip_ranges, notes):
             gens.append('F%d: %s' % (gi, ' + '.join(bounds)))
             sig.append('%s: &F%d' % (pname, gi))
         body_lit = lit_tok.replace('{self:', '{self_:').replace('{self}', '{self_}')
+        for pn, ex, _k in params:
+            if pn.startswith('c_') and ex[:1].isupper():
+                body_lit = body_lit.replace('{%s}' % ex, '{%s}' % pn).replace('{%s:' % ex, '{%s:' % pn)
         pos_names = [p[0] for p in params if p[0].startswith('a') and p[0][1:].isdigit()]
         body = 'format!(%s%s)' % (body_lit, ''.join(', ' + n for n in pos_names))
         spec = ' + '.join(spec_pieces) if spec_pieces else 'Seq::<char>::empty()'
@@ -423,8 +433,10 @@ def payload_text(d, tags_out, rename=None):
         m = re.match(r'\s*//#\s*(\S+)\s*(?:\[([^\]]*)\])?\s*(.*)$', text)
         if m:
             clause = m.group(1)
-            tags_out.setdefault(clause, dict(id=clause, tags=(m.group(2) or '').split(), note=m.group(3),
-                                             where=d['head'], file=os.path.basename(d['src']), line=ln, text=[]))
+            ent = tags_out.setdefault(clause, dict(id=clause, tags=[], note=m.group(3),
+                                                   where=d['head'], file=os.path.basename(d['src']), line=ln, text=[]))
+            # a clause id used again (e.g. on the proof block that serves a postcondition) adds its property tags
+            ent['tags'] += [t for t in (m.group(2) or '').split() if t not in ent['tags']]
         elif clause and text.strip():
             tags_out[clause]['text'].append(text.strip())
         lines.append(text)
